@@ -237,6 +237,11 @@ func c05(g *Gen) {
 		var names []string
 		for k := 0; k < nf; k++ {
 			fn := fmt.Sprintf("f%d.go", k)
+			if k == nf-1 && g.Chance(0.35) {
+				// a file whose name merely ends in "doc.go" is not the package's doc.go
+				fn = g.Pick([]string{"types_swagger_doc.go", "apidoc.go", "zdoc.go"})
+				c.cls["file-named-like-doc.go"] = true
+			}
 			files[fn] = c.file(pkg, k)
 			names = append(names, fn)
 		}
@@ -256,6 +261,9 @@ func c05(g *Gen) {
 			cls = append(cls, k)
 		}
 		sort.Strings(cls)
+		if !hasDoc {
+			g.Emit("C05.pkgcomments", list(), atoms(p.Comments), "no-doc.go")
+		}
 		for _, fn := range names {
 			gs, ds, pkgLine, allText := c05oracle(path+"/"+fn, files[fn])
 			// implementation observable, in the oracle's declaration order
@@ -269,7 +277,7 @@ func c05(g *Gen) {
 			out = c05observe(p, ds)
 			g.Emit("C05.comments", list(gs, ds), list(out...), cls...)
 			if fn == "doc.go" {
-				g.Emit("C05.pkgcomments", gs, atoms(p.Comments), "doc.go")
+				g.Emit("C05.pkgcomments", gs, atoms(p.Comments), cls...)
 				g.Emit("C05.comments", list(gs, list(list(atom("package"), num(pkgLine), boolS(false)))), list(list(atom("package"), normLines(p.DocComments), list())), "doc.go")
 				_ = allText
 			}
